@@ -1,6 +1,7 @@
 package main
 
 import (
+	"encoding/json"
 	"fmt"
 	"reflect"
 	"strings"
@@ -71,6 +72,13 @@ func newReader(format, data string) (restlicodec.Reader, error) {
 		return restlicodec.NewJsonReader([]byte(data))
 	case "header", "path":
 		return restlicodec.NewRor2Reader(data)
+	case "untyped":
+		// the JSON text as a plain Go tree
+		var tree interface{}
+		if err := json.Unmarshal([]byte(data), &tree); err != nil {
+			return nil, err
+		}
+		return restlicodec.NewInterfaceReader(tree), nil
 	case "query":
 		q, err := restlicodec.ParseQueryParams(data)
 		if err != nil {
@@ -155,7 +163,13 @@ func callHash(a reflect.Value) (h string, err error) {
 		return "", fmt.Errorf("%s has no ComputeHash", a.Type())
 	}
 	out := m.Call(nil)
-	return fmt.Sprintf("%v", out[0].Interface()), nil
+	h = fmt.Sprintf("%v", out[0].Interface())
+	// the caller owns the hash it was given: it goes on folding data into it (what the library's own collection
+	// hashing does with the hashes of elements); that must not reach anything shared
+	if add := out[0].MethodByName("AddInt32"); add.IsValid() {
+		add.Call([]reflect.Value{reflect.ValueOf(int32(0x5eed))})
+	}
+	return h, nil
 }
 
 // leaf returns the innermost component of a deviation label.
